@@ -71,6 +71,10 @@ pub struct KsState {
     /// values that were removed by a weak tombstone, per key (since the last clear); used only to
     /// classify a deviation as the known weak-tombstone resurrection (known_findings.json)
     pub weak_deleted: BTreeMap<Vec<u8>, Vec<Vec<u8>>>,
+    /// keys whose latest operation is a tombstone written by a bulk ingestion, with the value it
+    /// removed; used only to classify the known finding "ingested tombstone garbage-collected,
+    /// journaled value replayed at reopen"
+    pub ingest_tombstoned: BTreeMap<Vec<u8>, Vec<u8>>,
 }
 
 #[derive(Clone, Debug, Default)]
@@ -83,12 +87,14 @@ pub struct Model {
 impl Model {
     pub fn put(&mut self, ks: u8, k: &[u8], v: Vec<u8>) {
         if let Some(s) = self.ks.get_mut(&ks) {
+            s.ingest_tombstoned.remove(k);
             s.map.insert(k.to_vec(), v);
             *s.wcount.entry(k.to_vec()).or_insert(0) += 1;
         }
     }
     pub fn del(&mut self, ks: u8, k: &[u8]) {
         if let Some(s) = self.ks.get_mut(&ks) {
+            s.ingest_tombstoned.remove(k);
             s.map.remove(k);
             *s.wcount.entry(k.to_vec()).or_insert(0) += 1;
         }
@@ -131,13 +137,20 @@ impl Model {
                     s.map.clear();
                     s.wcount.clear();
                     s.weak_deleted.clear();
+                    s.ingest_tombstoned.clear();
                 }
             }
             Op::Ingest { ks, items } => {
                 for (k, v) in items {
                     match v {
                         Some(v) => self.put(*ks, k, v.bytes()),
-                        None => self.del(*ks, k),
+                        None => {
+                            let prev = self.ks.get(ks).and_then(|s| s.map.get(k).cloned());
+                            self.del(*ks, k);
+                            if let (Some(prev), Some(s)) = (prev, self.ks.get_mut(ks)) {
+                                s.ingest_tombstoned.insert(k.clone(), prev);
+                            }
+                        }
                     }
                 }
             }
@@ -152,6 +165,7 @@ impl Model {
                             wcount: BTreeMap::new(),
                             generation,
                             weak_deleted: BTreeMap::new(),
+                            ingest_tombstoned: BTreeMap::new(),
                         },
                     );
                 }
@@ -217,6 +231,8 @@ pub struct Exec {
     /// per keyspace: number of memtable rotations so far, and the rotation epoch of each key's last write
     pub epoch: BTreeMap<u8, u32>,
     pub wepoch: BTreeMap<(u8, Vec<u8>), u32>,
+    /// highest batch seqno present in the journal files just before the last reopen
+    pub journal_seqno_before_reopen: Option<u64>,
 }
 
 fn err(sig: &str, what: &str, e: &fjall::Error) -> Deviation {
@@ -240,6 +256,7 @@ impl Exec {
             deleted_paths: Vec::new(),
             epoch: BTreeMap::new(),
             wepoch: BTreeMap::new(),
+            journal_seqno_before_reopen: None,
         }
     }
 
@@ -586,6 +603,7 @@ impl Exec {
             Op::Reopen { front } => {
                 self.close_checked()?;
                 self.emit_mark("D");
+                self.journal_seqno_before_reopen = journal_max_seqno(&self.path);
                 self.open_front(*front)?;
                 self.check_names()?;
             }
@@ -801,7 +819,7 @@ impl Exec {
             return d;
         }
         let st = &self.model.ks[&ks];
-        if st.weak_deleted.is_empty() {
+        if st.weak_deleted.is_empty() && (st.ingest_tombstoned.is_empty() || self.opens < 2) {
             return d;
         }
         let Ok(dump) = crate::sweep::dump(h) else {
@@ -810,7 +828,9 @@ impl Exec {
         let mut keys: std::collections::BTreeSet<&Vec<u8>> = st.map.keys().collect();
         keys.extend(dump.keys());
         keys.extend(st.weak_deleted.keys());
+        keys.extend(st.ingest_tombstoned.keys());
         let mut diffs = 0;
+        let mut diffs_ingest = 0;
         for k in keys {
             let exp = st.map.get(k);
             let scan = dump.get(k);
@@ -824,7 +844,14 @@ impl Exec {
                     let explained = obs
                         .as_ref()
                         .is_some_and(|o| st.weak_deleted.get(k).is_some_and(|vs| vs.contains(o)));
-                    if !explained {
+                    // S5 remainder: only after a reopen, only a key whose latest operation is an
+                    // ingested tombstone, showing exactly the value that tombstone removed
+                    let explained_ingest = self.opens >= 2
+                        && exp.is_none()
+                        && obs.as_ref().is_some_and(|o| st.ingest_tombstoned.get(k) == Some(o));
+                    if explained_ingest {
+                        diffs_ingest += 1;
+                    } else if !explained {
                         return d;
                     }
                 }
@@ -832,6 +859,15 @@ impl Exec {
         }
         if diffs == 0 {
             return d;
+        }
+        if diffs_ingest > 0 {
+            return Deviation::new(
+                "known:ingested-tombstone-gc-journal-resurrection",
+                format!(
+                    "{} [{} observation(s) after a reopen: each is a key whose latest operation is a tombstone written by bulk ingestion and shows the journaled value that tombstone removed]",
+                    d.detail, diffs_ingest
+                ),
+            );
         }
         Deviation::new(
             "known:weak-tombstone-resurrection",
@@ -863,6 +899,41 @@ impl Exec {
         }
         Ok(())
     }
+}
+
+/// Highest batch seqno found in any journal file of the database directory
+/// (decoded with fjall's own journal codec through the H5 hook).
+pub fn journal_max_seqno(dir: &Path) -> Option<u64> {
+    use std::io::Read;
+    let mut best: Option<u64> = None;
+    let rd = std::fs::read_dir(dir).ok()?;
+    for e in rd.flatten() {
+        let p = e.path();
+        if p.extension().and_then(|x| x.to_str()) != Some("jnl") {
+            continue;
+        }
+        let Ok(mut f) = std::fs::File::open(&p) else { continue };
+        let mut data = Vec::new();
+        let mut chunk = vec![0u8; 1 << 20];
+        loop {
+            let Ok(n) = f.read(&mut chunk) else { break };
+            if n == 0 {
+                break;
+            }
+            let allzero = chunk[..n].iter().all(|b| *b == 0);
+            data.extend_from_slice(&chunk[..n]);
+            if allzero {
+                break;
+            }
+        }
+        let (entries, _) = fjall::verif::journal_decode(&data);
+        for en in entries {
+            if let fjall::verif::JournalEntry::Start { seqno, .. } = en {
+                best = Some(best.map_or(seqno, |b| b.max(seqno)));
+            }
+        }
+    }
+    best
 }
 
 pub fn val_unique(counter: &mut u64, len: u32, kind: u8) -> Val {
